@@ -29,10 +29,16 @@ type OblInst struct {
 	Seq    int
 	Where  string
 	Static bool // decided by the generator itself (frame / purity scans), no solver query
+	Gate   *OblInst // the whole clause this conjunct belongs to: if that is proved, so is this
+	// after-call covers: the context right before the callee's contract was
+	// applied; Vacuous is set when that was satisfiable and Ctx is not
+	PreCtx  *ctxNode
+	Vacuous bool
 }
 
 // FnRun is the verification of one function (or one lemma).
 type FnRun struct {
+	curCallee *ssa.Function // static callee of the call being applied by contract
 	e       *Engine
 	fn      *ssa.Function
 	c       *Contract
@@ -190,6 +196,30 @@ func ctxCommands(c *ctxNode) []string {
 		out[i], out[j] = out[j], out[i]
 	}
 	return out
+}
+
+// coverAfterCall emits a vacuity guard for the contract applied at a call: a
+// path that was feasible before the callee's ensures were assumed must still
+// be feasible afterwards (otherwise the contract contradicts the frame it
+// left unchanged, and everything after the call would be proved vacuously).
+func (r *FnRun) coverAfterCall(desc string, st *State, pre *ctxNode) {
+	name := fmt.Sprintf("%s:COVER:after-call:%s", shortName(r.name), desc)
+	o := &OblInst{Name: name, Kind: "COVER", Desc: "after-call:" + desc, Ctx: st.ctx, PreCtx: pre, Goal: TFalse, Path: fmtPath(st.path), Cover: true, Seq: len(r.obls)}
+	r.obls = append(r.obls, o)
+	fmt.Fprintf(&r.body, "(push 1)\n(check-sat)\n(pop 1)\n")
+}
+
+// standaloneCtx builds a satisfiability query for a bare context.
+func (r *FnRun) standaloneCtx(ctx *ctxNode) string {
+	var sb strings.Builder
+	sb.WriteString(r.header())
+	sb.WriteString(r.prelude.String())
+	for _, c := range ctxCommands(ctx) {
+		sb.WriteString(c)
+		sb.WriteByte('\n')
+	}
+	sb.WriteString("(check-sat)\n")
+	return sb.String()
 }
 
 // standalone builds a self-contained query for one VC.
@@ -367,7 +397,7 @@ func groupObligations(runs []*FnRun) []*Obligation {
 	var order []string
 	for _, r := range runs {
 		for _, o := range r.obls {
-			if o.Cover {
+			if o.Cover || o.Kind == "GATE" {
 				continue
 			}
 			g := by[o.Name]
